@@ -7,15 +7,24 @@
    the converter returns and is rewritten in place by `_merge_feat`, so the names a
    caller sees through any returned frame are the converter's current state.
 
-   Modelled primitives: every TensorMapper.forward is a row-wise function built from
-   the fitted statistics only (`apply_fit`); the categorical / multicategorical ones
-   are concrete (position in the fitted category list, Model/Stats.v), all others are
-   opaque (a cell is an id).  Features are column-major: a feature of one stype is the
-   list of its columns, so `cat(dim=1)` of features and `+` of name lists are both
-   list append. *)
+   The state machine (section Machine) is generic in the per-column mapper
+   `enc_col name index column` = `self._get_mapper(name).forward(df[name])`; NOTHING is
+   assumed about it there.  It is then instantiated (`pipeline_col`) with the pandas /
+   torch pipeline models of Model/Mapper.v through Converter.encode_col: numerical,
+   categorical, multicategorical, sequence, timestamp and embedding columns run the
+   modelled pipelines (their row-locality is DERIVED from the theorems of Props/C01.v in
+   Proofs/ConverterStateProofs.v).  Only the columns handled by user callables
+   (text_embedded, image_embedded, text_tokenized -- stub embedders / tokenizer in the
+   harness) are opaque: a cell is the id of the source row it came from, carried as a
+   one-entry vector through the embedded-column pipeline.  Multicategorical cells are
+   sets and are observed sorted.  pd.to_datetime is a black box (a timestamp cell
+   arrives parsed).  Features are column-major: a feature of one stype is the list of
+   its columns, so `cat(dim=1)` of features and `+` of name lists are both append. *)
 From Coq Require Import List Arith ZArith Bool String.
-From PF Require Import Lib.ListX Gen.Tables Model.Stats.
+From PF Require Import Lib.ListX Gen.Tables Model.Ragged Model.Mapper Model.MapperSpec Model.Converter.
 Import ListNotations.
+Local Open Scope nat_scope.
+Local Notation length := List.length (only parsing).
 
 (* ------------------------------------------------------- Python dict[stype, X] *)
 (* insertion-ordered association list; keys are unique by construction *)
@@ -68,37 +77,12 @@ Fixpoint merge_loop {X} (l : list stype) (d : dict (list X)) : option (dict (lis
   end.
 Definition merge_feat {X} (d : dict (list X)) : option (dict (list X)) := merge_loop (tf_stypes d) d.
 
-(* ------------------------------------------------------------------ mappers *)
-Inductive raw := RCat (v : option Z) | RMulti (toks : option (list Z)) | ROpaque (id : Z).
-Inductive enc := ECat (i : Z) | EMulti (l : list Z) | EOpaque (id : Z) | EBad.
-(* what _get_mapper builds for a column -- from the fitted statistics only *)
-Inductive col_fit := FitCat (cats : list Z) | FitMulti (cats : list Z) | FitOpaque.
-
-Definition apply_fit (f : col_fit) (r : raw) : enc :=
-  match f, r with
-  | FitCat cats, RCat v => ECat (encode_cat cats v)
-  | FitMulti cats, RMulti t => EMulti (encode_multi cats t)
-  | FitOpaque, ROpaque i => EOpaque i
-  | _, _ => EBad
-  end.
-
-Definition dataframe := list (string * list raw).       (* column label -> cells *)
+(* ------------------------------------------------------------- association lists *)
 Fixpoint lookup {V} (l : list (string * V)) (c : string) : option V :=
   match l with
   | [] => None
   | (c', v) :: r => if String.eqb c' c then Some v else lookup r c
   end.
-Definition df_col (df : dataframe) (c : string) : option (list raw) := lookup df c.
-
-Record config := { cfg_cts : list (string * stype);          (* col_to_stype, in dict order *)
-                   cfg_target : option string;
-                   cfg_fits : list (string * col_fit) }.     (* the mapper of every column *)
-
-(* self._get_mapper(col).forward(df[col]); KeyError when the frame lacks the column *)
-Definition map_col (cfg : config) (df : dataframe) (c : string) : option (list enc) :=
-  f <- lookup (cfg_fits cfg) c ;;
-  col <- df_col df c ;;
-  Some (map (apply_fit f) col).
 
 (* ----------------------------------------------------------------- __init__ *)
 Definition is_target (t : option string) (c : string) : bool :=
@@ -118,79 +102,172 @@ Definition init_names (cts : list (string * stype)) (target : option string) : d
               cts [] in
   dmap sort_str grouped.
 
-(* ----------------------------------------------------------------- __call__ *)
-Record tframe := { feats : dict (list (list enc));     (* stype -> columns -> rows *)
-                   y : option (list enc) }.
+(* ======================================================================== *)
+Section Machine.
+  (* L: index labels; Col: a DataFrame column; Enc: an encoded cell *)
+  Context {L Col Enc : Type}.
+  (* self._get_mapper(name).forward(df[name]) -- built from the fitted statistics only;
+     None = it raises.  Arbitrary in this section. *)
+  Variable enc_col : string -> list L -> Col -> option (list Enc).
+  (* column.iloc[idx] *)
+  Variable col_select : list nat -> Col -> option Col.
 
-(* a missing column surfaces as a KeyError somewhere inside the loops; which statement
-   raises is not observable, so the option is carried per column and sequenced at the end *)
-Definition seq_cols (cols : list (option (list enc))) : option (list (list enc)) := mapM (fun c => c) cols.
-Definition seq_dict (d : dict (list (option (list enc)))) : option (dict (list (list enc))) :=
-  mapM (fun p => cols <- seq_cols (snd p) ;; Some (fst p, cols)) d.
+  Record dataframe := { df_index : list L; df_cols : list (string * Col) }.
+  Definition df_col (df : dataframe) (c : string) : option Col := lookup (df_cols df) c.
 
-Definition call_y (cfg : config) (df : dataframe) : option (option (list enc)) :=
-  match cfg_target cfg with
-  | Some t =>
-      match df_col df t with                     (* `self.target_col in df` *)
-      | Some _ => option_map Some (map_col cfg df t)
-      | None => Some None
-      end
-  | None => Some None
+  (* KeyError when the frame lacks the column *)
+  Definition map_col (df : dataframe) (c : string) : option (list Enc) :=
+    col <- df_col df c ;; enc_col c (df_index df) col.
+
+  Record tframe := { feats : dict (list (list Enc));     (* stype -> columns -> rows *)
+                     y : option (list Enc) }.
+
+  (* a missing column surfaces as a KeyError somewhere inside the loops; which statement
+     raises is not observable, so the option is carried per column and sequenced at the end *)
+  Definition seq_cols (cols : list (option (list Enc))) : option (list (list Enc)) := mapM (fun c => c) cols.
+  Definition seq_dict (d : dict (list (option (list Enc)))) : option (dict (list (list Enc))) :=
+    mapM (fun p => cols <- seq_cols (snd p) ;; Some (fst p, cols)) d.
+
+  Definition call_y (target : option string) (df : dataframe) : option (option (list Enc)) :=
+    match target with
+    | Some t =>
+        match df_col df t with                     (* `self.target_col in df` *)
+        | Some _ => option_map Some (map_col df t)
+        | None => Some None
+        end
+    | None => Some None
+    end.
+
+  (* one call: (state before, frame) -> (state after, returned TensorFrame); the returned
+     frame's col_names_dict IS the state after *)
+  Definition call (target : option string) (d : dict (list string)) (df : dataframe)
+    : option (dict (list string) * tframe) :=
+    let xs := dmap (map (map_col df)) d in                 (* xs_dict -> feat_dict *)
+    yv <- call_y target df ;;
+    fd <- merge_feat xs ;;                                 (* _merge_feat on feat_dict ... *)
+    d' <- merge_feat d ;;                                  (* ... and on the shared col_names_dict *)
+    fd' <- seq_dict fd ;;
+    Some (d', {| feats := fd'; y := yv |}).
+
+  (* a sequence of calls on one converter *)
+  Fixpoint run (target : option string) (d : dict (list string)) (dfs : list dataframe)
+    : option (dict (list string) * list tframe) :=
+    match dfs with
+    | [] => Some (d, [])
+    | df :: r =>
+        p <- call target d df ;;
+        q <- run target (fst p) r ;;
+        Some (fst q, snd p :: snd q)
+    end.
+
+  (* df.iloc[idx] : positions, any multiset / order; IndexError when out of range *)
+  Definition df_select (idx : list nat) (df : dataframe) : option dataframe :=
+    ix <- tgather (df_index df) idx ;;
+    cols <- mapM (fun p => col <- col_select idx (snd p) ;; Some (fst p, col)) (df_cols df) ;;
+    Some {| df_index := ix; df_cols := cols |}.
+  (* tensor_frame[idx] *)
+  Definition cols_select (idx : list nat) (cols : list (list Enc)) : option (list (list Enc)) :=
+    mapM (fun col => tgather col idx) cols.
+  Definition feats_select (idx : list nat) (fd : dict (list (list Enc))) : option (dict (list (list Enc))) :=
+    mapM (fun p => cols <- cols_select idx (snd p) ;; Some (fst p, cols)) fd.
+  Definition y_select (idx : list nat) (yv : option (list Enc)) : option (option (list Enc)) :=
+    match yv with None => Some None | Some l => option_map Some (tgather l idx) end.
+  Definition tf_select (idx : list nat) (tf : tframe) : option tframe :=
+    fd <- feats_select idx (feats tf) ;;
+    yv <- y_select idx (y tf) ;;
+    Some {| feats := fd; y := yv |}.
+End Machine.
+Arguments dataframe : clear implicits.
+Arguments tframe : clear implicits.
+
+(* ======================================================================== *)
+(* Instantiation with the pipeline models of Model/Mapper.v *)
+
+(* a DataFrame column as the converter receives it (cells only; what the converter knows
+   about the column comes from the fitted statistics / configuration, `col_fit`) *)
+Inductive fcol :=
+| FNum (cells : list (option num))
+| FCat (cells : list (option pval))
+| FMulti (dtype_ok : bool) (cells : list mc_cell)       (* dtype_ok: held with object / string dtype *)
+| FSeq (cells : list seq_cell)
+| FTime (cells : list (option Z))                        (* parsed by pd.to_datetime (black box) *)
+| FVec (cells : list (list num))
+| FStub (ids : list Z).                                  (* handled by a user callable: opaque row ids *)
+
+(* what _get_mapper builds for a column -- from the fitted statistics / configuration only *)
+Inductive col_fit :=
+| FitNum | FitCat (cats : list pval) | FitMulti (cats : list pval) (sep : option str)
+| FitSeq | FitTime | FitEmb | FitStub.
+
+(* the mapper applied to a column of the wrong kind raises *)
+Definition attach (f : col_fit) (c : fcol) : option rawcol :=
+  match f, c with
+  | FitNum, FNum cells => Some (RNum cells)
+  | FitCat cats, FCat cells => Some (RCat cats cells)
+  | FitMulti cats sep, FMulti dt cells => Some (RMulti dt cats sep cells)
+  | FitSeq, FSeq cells => Some (RSeq cells)
+  | FitTime, FTime cells => Some (RTime cells)
+  | FitEmb, FVec cells => Some (REmb cells)
+  | FitStub, FStub ids => Some (RTextEmb (map (fun i => [NFin i]) ids))
+  | _, _ => None
+  end.
+Definition is_multi_fit (f : col_fit) : bool := match f with FitMulti _ _ => true | _ => false end.
+
+(* _get_mapper(name).forward(df[name]) through the pipeline models; multicategorical cells
+   are sets (Python set order is unspecified): observed sorted *)
+Definition pipeline_col {L} (leqb : L -> L -> bool) (fits : list (string * col_fit))
+           (c : string) (ix : list L) (col : fcol) : option (list ecell) :=
+  f <- lookup fits c ;;
+  rc <- attach f col ;;
+  e <- encode_col leqb ix rc ;;
+  cells <- as_col e ;;
+  Some (if is_multi_fit f then map sort_cell cells else cells).
+
+Definition fcol_select (idx : list nat) (c : fcol) : option fcol :=
+  match c with
+  | FNum cells => option_map FNum (tgather cells idx)
+  | FCat cells => option_map FCat (tgather cells idx)
+  | FMulti dt cells => option_map (FMulti dt) (tgather cells idx)
+  | FSeq cells => option_map FSeq (tgather cells idx)
+  | FTime cells => option_map FTime (tgather cells idx)
+  | FVec cells => option_map FVec (tgather cells idx)
+  | FStub ids => option_map FStub (tgather ids idx)
+  end.
+Definition fcol_len (c : fcol) : nat :=
+  match c with
+  | FNum l => length l | FCat l => length l | FMulti _ l => length l | FSeq l => length l
+  | FTime l => length l | FVec l => length l | FStub l => length l
   end.
 
-(* one call: (state before, frame) -> (state after, returned TensorFrame); the returned
-   frame's col_names_dict IS the state after *)
-Definition call (cfg : config) (d : dict (list string)) (df : dataframe)
-  : option (dict (list string) * tframe) :=
-  let xs := dmap (map (map_col cfg df)) d in            (* xs_dict -> feat_dict *)
-  yv <- call_y cfg df ;;
-  fd <- merge_feat xs ;;                                 (* _merge_feat on feat_dict ... *)
-  d' <- merge_feat d ;;                                  (* ... and on the shared col_names_dict *)
-  fd' <- seq_dict fd ;;
-  Some (d', {| feats := fd'; y := yv |}).
-
-(* a sequence of calls on one converter *)
-Fixpoint run (cfg : config) (d : dict (list string)) (dfs : list dataframe)
-  : option (dict (list string) * list tframe) :=
-  match dfs with
-  | [] => Some (d, [])
-  | df :: r =>
-      p <- call cfg d df ;;
-      q <- run cfg (fst p) r ;;
-      Some (fst q, snd p :: snd q)
-  end.
-
-(* ---------------------------------------------------------------- selections *)
-(* df.iloc[idx] : positions, any multiset / order; IndexError when out of range *)
-Definition df_select (idx : list nat) (df : dataframe) : option dataframe :=
-  mapM (fun p => col <- tgather (snd p) idx ;; Some (fst p, col)) df.
-(* tensor_frame[idx] *)
-Definition cols_select (idx : list nat) (cols : list (list enc)) : option (list (list enc)) :=
-  mapM (fun col => tgather col idx) cols.
-Definition feats_select (idx : list nat) (fd : dict (list (list enc))) : option (dict (list (list enc))) :=
-  mapM (fun p => cols <- cols_select idx (snd p) ;; Some (fst p, cols)) fd.
-Definition y_select (idx : list nat) (yv : option (list enc)) : option (option (list enc)) :=
-  match yv with None => Some None | Some l => option_map Some (tgather l idx) end.
-Definition tf_select (idx : list nat) (tf : tframe) : option tframe :=
-  fd <- feats_select idx (feats tf) ;;
-  yv <- y_select idx (y tf) ;;
-  Some {| feats := fd; y := yv |}.
+(* the concrete converter: labels are naturals *)
+Definition pdataframe := dataframe nat fcol.
+Definition ptframe := tframe ecell.
+Definition pcall (fits : list (string * col_fit)) := call (pipeline_col Nat.eqb fits).
+Definition prun (fits : list (string * col_fit)) := run (pipeline_col Nat.eqb fits).
+Definition pdf_select := @df_select nat fcol fcol_select.
 
 (* ------------------------------------------- materialize(col_stats = ...) *)
 (* one column's statistics: which StatType keys exist, the category list, EMB_DIM *)
-Record col_stat := { cs_keys : list stat_type; cs_cats : list Z; cs_emb : option nat }.
+Record col_stat := { cs_keys : list stat_type; cs_cats : list pval; cs_emb : option nat }.
 Definition stats := list (string * col_stat).
 Definition has_key (k : stat_type) (cs : col_stat) : bool := existsb (stat_type_eqb k) (cs_keys cs).
 
-(* _get_mapper: reads col_stats[col][COUNT] / [MULTI_COUNT] (KeyError when absent), nothing else *)
-Definition fit_of_stat (s : stype) (cs : col_stat) : option col_fit :=
+(* _get_mapper: reads col_stats[col][COUNT] / [MULTI_COUNT] (KeyError when absent) and col_to_sep[col], nothing else *)
+Definition fit_of_stat (s : stype) (sep : option str) (cs : col_stat) : option col_fit :=
   match s with
+  | st_numerical => Some FitNum
   | st_categorical => if has_key stat_COUNT cs then Some (FitCat (cs_cats cs)) else None
-  | st_multicategorical => if has_key stat_MULTI_COUNT cs then Some (FitMulti (cs_cats cs)) else None
-  | _ => Some FitOpaque
+  | st_multicategorical => if has_key stat_MULTI_COUNT cs then Some (FitMulti (cs_cats cs) sep) else None
+  | st_sequence_numerical => Some FitSeq
+  | st_timestamp => Some FitTime
+  | st_embedding => Some FitEmb
+  | _ => Some FitStub
   end.
-Definition fits_of (cts : list (string * stype)) (st : stats) : option (list (string * col_fit)) :=
-  mapM (fun p => cs <- lookup st (fst p) ;; f <- fit_of_stat (snd p) cs ;; Some (fst p, f)) cts.
+Definition sep_of (seps : list (string * option str)) (c : string) : option str :=
+  match lookup seps c with Some s => s | None => None end.
+Definition fits_of (cts : list (string * stype)) (seps : list (string * option str)) (st : stats)
+  : option (list (string * col_fit)) :=
+  mapM (fun p => cs <- lookup st (fst p) ;; f <- fit_of_stat (snd p) (sep_of seps (fst p)) cs ;; Some (fst p, f)) cts.
 
 (* the asserts on user-supplied col_stats: every column present, every required statistic present *)
 Definition validate_stats (cts : list (string * stype)) (st : stats) : bool :=
@@ -210,7 +287,7 @@ Fixpoint set_emb (st : stats) (c : string) (w : nat) : option stats :=
       else r' <- set_emb r c w ;; Some ((c', cs) :: r')
   end.
 (* _update_col_stats: EMB_DIM of every column of the (merged) embedding feature; `width` is the
-   width of the vectors the column's mapper produces (offset differences, see Model/Stats.v) *)
+   width of the vectors the column's mapper produced (offset differences, see Model/Stats.v) *)
 Fixpoint update_emb (width : string -> nat) (st : stats) (cols : list string) : option stats :=
   match cols with
   | [] => Some st
@@ -224,58 +301,120 @@ Definition update_col_stats (width : string -> nat) (st : stats) (d : dict (list
 
 (* Dataset.materialize(col_stats = supplied) without cache path.  `compute` stands for the
    per-column compute_col_stats (+ binary target re-sort), Model/Stats.v *)
-Definition materialize (cts : list (string * stype)) (target : option string)
-           (compute : dataframe -> stats) (width : string -> nat)
-           (supplied : option stats) (df : dataframe)
-  : option (stats * dict (list string) * tframe) :=
+Definition materialize (cts : list (string * stype)) (seps : list (string * option str)) (target : option string)
+           (compute : pdataframe -> stats) (width : string -> nat)
+           (supplied : option stats) (df : pdataframe)
+  : option (stats * dict (list string) * ptframe) :=
   st <- match supplied with
         | None => Some (compute df)
         | Some s => if validate_stats cts s then Some s else None        (* AssertionError *)
         end ;;
-  fits <- fits_of cts st ;;
-  p <- call {| cfg_cts := cts; cfg_target := target; cfg_fits := fits |} (init_names cts target) df ;;
+  fits <- fits_of cts seps st ;;
+  p <- pcall fits target (init_names cts target) df ;;
   st' <- update_col_stats width st (fst p) ;;
   Some (st', fst p, snd p).
 
 (* ------------------------------------------------- observations (harness side) *)
-Record obs := mk_obs { o_names : dict (list string); o_feats : dict (list (list enc)); o_y : option (list enc) }.
+Record obs := mk_obs { o_names : dict (list string); o_feats : dict (list (list ecell)); o_y : option (list ecell) }.
 
-Definition enc_eqb (a b : enc) : bool :=
+Definition num_eqb (a b : num) : bool :=
   match a, b with
-  | ECat i, ECat j => Z.eqb i j
-  | EMulti l, EMulti l' => list_eqb Z.eqb l l'
-  | EOpaque i, EOpaque j => Z.eqb i j
+  | NFin x, NFin y => (x =? y)%Z
+  | NNaN, NNaN | NPosInf, NPosInf | NNegInf, NNegInf => true
   | _, _ => false
   end.
+Definition scalar_eqb (a b : scalar) : bool :=
+  match a, b with
+  | SInt x, SInt y => (x =? y)%Z
+  | SNum x, SNum y => num_eqb x y
+  | _, _ => false
+  end.
+Fixpoint list_eqb {A} (e : A -> A -> bool) (a b : list A) : bool :=
+  match a, b with
+  | [], [] => true
+  | x :: a', y :: b' => e x y && list_eqb e a' b'
+  | _, _ => false
+  end.
+Definition ecell_eqb : ecell -> ecell -> bool := list_eqb scalar_eqb.
+
 (* dicts are compared as mappings (dict equality ignores insertion order) *)
 Definition canon {X} (d : dict X) : list (stype * X) :=
   flat_map (fun s => match dget d s with Some v => [(s, v)] | None => [] end) all_stype.
 Definition dict_eqb {X} (e : X -> X -> bool) (d d' : dict X) : bool :=
-  (List.length d =? List.length (canon d))%nat && (List.length d' =? List.length (canon d'))%nat &&
+  (List.length d =? List.length (canon d)) && (List.length d' =? List.length (canon d')) &&
   list_eqb (fun a b => stype_eqb (fst a) (fst b) && e (snd a) (snd b)) (canon d) (canon d').
-Definition obs_ok (d : dict (list string)) (tf : tframe) (o : obs) : bool :=
-  dict_eqb (list_eqb String.eqb) d (o_names o)
-  && dict_eqb (list_eqb (list_eqb enc_eqb)) (feats tf) (o_feats o)
-  && match y tf, o_y o with
-     | None, None => true
-     | Some a, Some b => list_eqb enc_eqb a b
-     | _, _ => false
-     end.
+Definition names_eqb : dict (list string) -> dict (list string) -> bool := dict_eqb (list_eqb String.eqb).
+Definition feats_eqb : dict (list (list ecell)) -> dict (list (list ecell)) -> bool :=
+  dict_eqb (list_eqb (list_eqb ecell_eqb)).
+Definition y_eqb (a b : option (list ecell)) : bool :=
+  match a, b with
+  | None, None => true
+  | Some a, Some b => list_eqb ecell_eqb a b
+  | _, _ => false
+  end.
+Definition obs_ok (d : dict (list string)) (tf : ptframe) (o : obs) : bool :=
+  names_eqb d (o_names o) && feats_eqb (feats tf) (o_feats o) && y_eqb (y tf) (o_y o).
 
 (* an observation None = the implementation raised: the model must raise too, and the
    converter (whose state a raising call leaves untouched) stays usable *)
-Fixpoint session_go (cfg : config) (d : dict (list string)) (calls : list (dataframe * option obs)) : bool :=
+Fixpoint session_go (fits : list (string * col_fit)) (target : option string) (d : dict (list string))
+         (calls : list (pdataframe * option obs)) : bool :=
   match calls with
   | [] => true
   | (df, o) :: r =>
-      match call cfg d df, o with
-      | None, None => session_go cfg d r
-      | Some (d1, tf), Some o => obs_ok d1 tf o && session_go cfg d1 r
+      match pcall fits target d df, o with
+      | None, None => session_go fits target d r
+      | Some (d1, tf), Some o => obs_ok d1 tf o && session_go fits target d1 r
       | _, _ => false
       end
   end.
 (* a fresh converter (state = init_names) followed through a sequence of calls, each compared
    with what the implementation returned *)
 Definition session_ok (cts : list (string * stype)) (target : option string)
-           (fits : list (string * col_fit)) (calls : list (dataframe * option obs)) : bool :=
-  session_go {| cfg_cts := cts; cfg_target := target; cfg_fits := fits |} (init_names cts target) calls.
+           (fits : list (string * col_fit)) (calls : list (pdataframe * option obs)) : bool :=
+  session_go fits target (init_names cts target) calls.
+
+(* df.iloc[idx] / tensor_frame[idx]: the model's selection of the whole frame is the frame the
+   harness handed to the converter, and the model's selection of the materialized TensorFrame is
+   what `dataset.tensor_frame[idx]` returned *)
+Definition fcol_eqb (a b : fcol) : bool :=
+  match a, b with
+  | FNum x, FNum y => list_eqb (fun p q => match p, q with None, None => true | Some u, Some v => num_eqb u v | _, _ => false end) x y
+  | FStub x, FStub y => list_eqb Z.eqb x y
+  | FTime x, FTime y => list_eqb (fun p q => match p, q with None, None => true | Some u, Some v => (u =? v)%Z | _, _ => false end) x y
+  | FCat x, FCat y => (List.length x =? List.length y)
+  | FMulti d x, FMulti d' y => Bool.eqb d d' && (List.length x =? List.length y)
+  | FSeq x, FSeq y => (List.length x =? List.length y)
+  | FVec x, FVec y => list_eqb (list_eqb num_eqb) x y
+  | _, _ => false
+  end.
+Definition selection_ok (cts : list (string * stype)) (target : option string) (fits : list (string * col_fit))
+           (whole : pdataframe) (idx : list nat) (selected : pdataframe) (o : obs) : bool :=
+  match pdf_select idx whole, pcall fits target (init_names cts target) whole with
+  | Some df', Some (d1, tf) =>
+      list_eqb Nat.eqb (df_index df') (df_index selected)
+      && list_eqb (fun a b => String.eqb (fst a) (fst b) && fcol_eqb (snd a) (snd b)) (df_cols df') (df_cols selected)
+      && match tf_select idx tf, pcall fits target d1 df' with
+         | Some tf', Some (d2, tf'') =>
+             obs_ok d1 tf' o && obs_ok d2 tf'' o
+         | _, _ => false
+         end
+  | _, _ => false
+  end.
+
+(* materialize(col_stats = supplied) evaluated end to end: validation, mappers from the statistics,
+   first converter call, _update_col_stats; compared with the TensorFrame and the statistics observed *)
+Definition col_stat_eqb (a b : col_stat) : bool :=
+  forallb (fun k => Bool.eqb (has_key k a) (has_key k b)) all_stat_type
+  && list_eqb pval_eqb (cs_cats a) (cs_cats b)
+  && match cs_emb a, cs_emb b with None, None => true | Some x, Some y => x =? y | _, _ => false end.
+Definition stats_eqb (a b : stats) : bool :=
+  list_eqb (fun p q => String.eqb (fst p) (fst q) && col_stat_eqb (snd p) (snd q)) a b.
+Definition materialize_ok (cts : list (string * stype)) (seps : list (string * option str)) (target : option string)
+           (computed : stats) (widths : list (string * nat)) (supplied : option stats)
+           (df : pdataframe) (st_obs : stats) (o : obs) : bool :=
+  match materialize cts seps target (fun _ => computed)
+                    (fun c => match lookup widths c with Some w => w | None => 0 end) supplied df with
+  | Some (st', d1, tf) => stats_eqb st' st_obs && obs_ok d1 tf o
+  | None => false
+  end.
